@@ -4,6 +4,9 @@ real `markdown.Markdown(extensions=[…])` instance over random HISTORIES: seque
 that split definitions and uses (link references, footnotes, abbreviations) across the documents of a history,
 entity references and fenced blocks (the HTML stash keeps counting without `reset()`).
 
+In three histories out of ten the `meta` extension is enabled as well (op `instx.runm`, `InstanceX.convertSM true`): half of
+the documents then open with a meta-data header (generators of corr/meta.py), and `md.Meta` after the history is compared.
+
 run(driver, rng, n) -> {'cases', 'distinct', 'disagreements', 'samples', 'dist'}
 
 Compared: EVERY output of the history, and the state after it (`md.references`, the footnote table, `abbrs`,
@@ -23,6 +26,7 @@ import proto  # noqa: E402
 import markdown  # noqa: E402
 from gen import common as G, docs as D  # noqa: E402
 import pipelinex as PX  # noqa: E402
+import meta as CM  # noqa: E402
 
 EXTS = PX.EXTS
 
@@ -83,13 +87,25 @@ def gen_doc(rng):
     return s.replace('<', '')
 
 
-def gen_history(rng):
+def gen_meta_doc(rng):
+    body = gen_doc(rng)
+    r = rng.random()
+    if r < 0.35: s = '\n'.join(CM.gen_header(rng)) + rng.choice(['\n\n', '\n\n', '\n\n\n', '\n \n']) + body
+    elif r < 0.5: s = '---\n' + '\n'.join(CM.gen_header(rng)) + rng.choice(['\n---\n', '\n...\n', '\n---\n\n', '\n\n']) + body
+    elif r < 0.56: s = '\n'.join(CM.gen_header(rng)) + '\n' + body
+    elif r < 0.6: s = rng.choice(CM.FIXED)
+    else: s = body
+    return s.replace('<', '')
+
+
+def gen_history(rng, meta=False):
     k = rng.randint(1, 6)
+    g = gen_meta_doc if meta else gen_doc
     evs = []
     for i in range(k):
         if i and rng.random() < 0.22: evs.append(None)                  # reset()
-        else: evs.append(gen_doc(rng))
-    if not any(e is not None for e in evs): evs[0] = gen_doc(rng)
+        else: evs.append(g(rng))
+    if not any(e is not None for e in evs): evs[0] = g(rng)
     return evs
 
 
@@ -145,7 +161,8 @@ def run(driver, rng, n, supported=None):
     attempts = 0
     while len(cases) < n and attempts < 3 * n + 100:
         attempts += 1
-        evs = gen_history(rng)
+        on = rng.random() < 0.3
+        evs = gen_history(rng, on)
         if any(e is not None and (not proto.lean_ok(e) or 'Σ' in e or '<' in e or '\t' in e and False) for e in evs): continue
         r = rng.random()
         if r < 0.3: names = set(supported)
@@ -154,24 +171,29 @@ def run(driver, rng, n, supported=None):
         else: names = {e for e in supported if rng.random() < 0.5}
         tab = rng.choice([4, 4, 4, 4, 4, 2, 8])
         fmt = rng.choice(['xhtml', 'xhtml', 'html'])
-        cases.append((evs, tab, fmt, PX.flags_of(names)))
-    reqs = [('instx.run', fl, str(t), f) + tuple('R' if e is None else 'C' + proto.enc_str(e) for e in evs) for evs, t, f, fl in cases]
+        cases.append((evs, tab, fmt, PX.flags_of(names), on))
+    reqs = [(('instx.runm', '1') if on else ('instx.run',)) + (fl, str(t), f) + tuple('R' if e is None else 'C' + proto.enc_str(e) for e in evs)
+            for evs, t, f, fl, on in cases]
     ans = driver.ask_many(reqs)
     dis = []
     dist = {'histories': 0, 'conversions': 0, 'resets': 0, 'ok': 0, 'err': 0, 'oof': 0, 'ood': 0, 'ood:after-failure': 0, 'recursion_skip': 0,
             'skip:non-ascii-class': 0, 'state_compared': 0, 'state_untracked': 0, 'persistence_visible': 0, 'conv_without_reset': 0,
-            'toc_nonempty': 0, 'leak:refs': 0, 'leak:footnotes': 0, 'leak:abbr': 0, 'leak:stash': 0, 'leak:fnref': 0}
+            'toc_nonempty': 0, 'meta_on': 0, 'meta_nonempty': 0, 'leak:refs': 0, 'leak:footnotes': 0, 'leak:abbr': 0, 'leak:stash': 0, 'leak:fnref': 0}
     distinct = 0
     fresh_cache = {}
-    for (evs, tab, fmt, fl), a in zip(cases, ans):
+    for (evs, tab, fmt, fl, on), a in zip(cases, ans):
         dist['histories'] += 1
         outs_f, state_f = a.split('#', 1)
+        meta_f = None
+        if on:
+            dist['meta_on'] += 1
+            if state_f != 'X': state_f, meta_f = state_f.rsplit('#', 1)
         outs = outs_f.split('|') if outs_f else []
         names = [e for e, c in zip(EXTS, fl) if c == '1']
-        md = markdown.Markdown(tab_length=tab, output_format=fmt, extensions=names)
-        key = (tab, fmt, fl)
+        md = markdown.Markdown(tab_length=tab, output_format=fmt, extensions=names + (['meta'] if on else []))
+        key = (tab, fmt, fl, on)
         if key not in fresh_cache:
-            fresh_cache[key] = markdown.Markdown(tab_length=tab, output_format=fmt, extensions=names)
+            fresh_cache[key] = markdown.Markdown(tab_length=tab, output_format=fmt, extensions=names + (['meta'] if on else []))
         j = 0; skip = False; tracked = True; dirty = False; visible = False
         for e in evs:
             if e is None:
@@ -194,7 +216,7 @@ def run(driver, rng, n, supported=None):
                 dist['skip:non-ascii-class'] += 1; skip = True; break
             dist[{'K': 'ok', 'E': 'err', 'F': 'oof'}[m[0]]] += 1
             if m != real:
-                dis.append({'op': 'instx.run', 'input': {'history': evs, 'tab': tab, 'fmt': fmt, 'flags': fl, 'step': j - 1},
+                dis.append({'op': 'instx.run', 'input': {'history': evs, 'tab': tab, 'fmt': fmt, 'flags': fl, 'meta': on, 'step': j - 1},
                             'model': proto.dec_str(m[1:]) if m[0] == 'K' else m, 'impl': proto.dec_str(real[1:]) if real[0] == 'K' else real})
                 skip = True; break
             if m[0] != 'K': tracked = False; continue
@@ -218,18 +240,23 @@ def run(driver, rng, n, supported=None):
         if state_f == 'X' or not tracked:
             dist['state_untracked'] += 1
             if (state_f == 'X') != (not tracked):
-                dis.append({'op': 'instx.run', 'input': {'history': evs, 'tab': tab, 'fmt': fmt, 'flags': fl}, 'model': 'state ' + state_f[:1], 'impl': 'tracked=%r' % tracked})
+                dis.append({'op': 'instx.run', 'input': {'history': evs, 'tab': tab, 'fmt': fmt, 'flags': fl, 'meta': on}, 'model': 'state ' + state_f[:1], 'impl': 'tracked=%r' % tracked})
             continue
         rs = real_state(md); ms = model_state(state_f, rs)
         dist['state_compared'] += 1
         if rs['toks']: dist['toc_nonempty'] += 1
         if len(rs['html']) > 0 and any(x is None for x in evs[1:]) is False and len([x for x in evs if x]) > 1: dist['leak:stash'] += 1
+        if on:
+            rm = CM.enc_dict([(k, list(v)) for k, v in md.Meta.items()])
+            if md.Meta: dist['meta_nonempty'] += 1
+            if rm != meta_f:
+                dis.append({'op': 'instx.runm', 'input': {'history': evs, 'tab': tab, 'fmt': fmt, 'flags': fl, 'meta': on}, 'model': 'Meta ' + str(meta_f), 'impl': 'Meta ' + rm})
         if rs != ms:
-            dis.append({'op': 'instx.run', 'input': {'history': evs, 'tab': tab, 'fmt': fmt, 'flags': fl}, 'model': 'state ' + repr(ms), 'impl': 'state ' + repr(rs)})
+            dis.append({'op': 'instx.run', 'input': {'history': evs, 'tab': tab, 'fmt': fmt, 'flags': fl, 'meta': on}, 'model': 'state ' + repr(ms), 'impl': 'state ' + repr(rs)})
     for e in EXTS:
         dist['flag:' + e] = sum(1 for c in cases if c[3][EXTS.index(e)] == '1')
     return {'cases': len(cases), 'distinct': distinct, 'disagreements': dis,
-            'samples': [{'history': c[0], 'tab': c[1], 'fmt': c[2], 'flags': c[3], 'model': a[:200]} for c, a in list(zip(cases, ans))[:3]],
+            'samples': [{'history': c[0], 'tab': c[1], 'fmt': c[2], 'flags': c[3], 'meta': c[4], 'model': a[:200]} for c, a in list(zip(cases, ans))[:3]],
             'dist': dist}
 
 
